@@ -498,7 +498,9 @@ func (w *world) exec(line string) {
 		fmt.Fprintln(w.out, "mode ok")
 	case "cfg":
 		n := atoi(tok[1])
-		dir := w.abs(unhx(tok[2]))
+		// the Dir option is passed as written (root + "/" + relative part), NOT cleaned, so that
+		// trailing separators, "." and ".." segments reach the library
+		dir := w.root + "/" + unhx(tok[2])
 		var opts []func(*Config)
 		opts = append(opts, Dir(dir))
 		if tok[3] != "-" {
